@@ -24,6 +24,8 @@
 #include <map>
 #include <set>
 #include <sstream>
+#include <unistd.h>
+#include <sys/wait.h>
 
 namespace c12ops {
 using namespace Avoid;
@@ -45,6 +47,12 @@ template struct Rob<TRzle, &HyperedgeImprover::removeZeroLengthEdges>;
 struct TMove { typedef HyperedgeTreeNode *(HyperedgeImprover::*type)(HyperedgeTreeNode *, bool &); friend type get(TMove); };
 template struct Rob<TMove, &HyperedgeImprover::moveJunctionAlongCommonEdge>;
 
+struct TUpd { typedef void (ConnRef::*type)(const unsigned int, const ConnEnd &); friend type get(TUpd); };
+template <typename Tag, typename Tag::type M> struct RobC { friend typename Tag::type get(Tag) { return M; } };
+template struct RobC<TUpd, &ConnRef::updateEndPoint>;
+
+struct PendingEnds { ConnRef *conn; ConnEnd src, dst; };
+
 struct World {
     Router *router;
     HyperedgeImprover imp;
@@ -59,7 +67,11 @@ struct World {
     std::set<long> fixedJ, fixedC;
     long next, nextJ, nextC;
     bool major;
+    std::vector<PendingEnds> pending;          // connector ends to attach once the junctions are live
     World() : router(new Router(OrthogonalRouting)), next(0), nextJ(1), nextC(1), major(false) {
+        // the router's own improver must leave the scene alone: the tree under test is built by the harness
+        router->setRoutingOption(improveHyperedgeRoutesMovingJunctions, false);
+        router->setRoutingOption(improveHyperedgeRoutesMovingAddingAndDeletingJunctions, false);
         imp.setRouter(router);
     }
     HyperedgeTreeNode *nodeById(long id) { for (auto &p : nid) if (p.second == id) return p.first; return nullptr; }
@@ -69,8 +81,11 @@ struct World {
         if (fixed) { j->setPositionFixed(true); fixedJ.insert(nextJ); }
         jid[j] = nextJ; jById[nextJ] = j; ++nextJ; return j;
     }
-    ConnRef *newConn(bool fixed) {
+    ConnRef *newConn(bool fixed, const ConnEnd *src = nullptr, const ConnEnd *dst = nullptr) {
         ConnRef *c = new ConnRef(router);
+        // a connector with a fixed route stays unattached (point ends from setFixedRoute): the write-back
+        // then meets a connector without destination ConnEnd
+        if (src && dst && !fixed) pending.push_back(PendingEnds{ c, *src, *dst });
         if (fixed) {
             PolyLine pl; pl.ps.push_back(Point(0, 0)); pl.ps.push_back(Point(1, 0));
             c->setFixedRoute(pl); fixedC.insert(nextC);
@@ -227,22 +242,32 @@ inline HyperedgeTreeNode *genTree(World &w, vh::Rng &r, int nHubs, bool odd) {
         for (size_t q = 0; q < hubs.size(); ++q) if (hubs[q].isJunction) js.push_back((int) q);
         Hub par = hubs[js[r.next() % js.size()]];
         bool isJ = r.coin(1, 3) && h + 2 < nHubs;
-        ConnRef *conn = w.newConn(r.coin(1, 12));
+        bool fixedConn = r.coin(1, 12);
         int segs = (int) r.range(1, 4);
         int x = par.x, y = par.y;
-        HyperedgeTreeNode *prev = par.node;
         bool towardsParent = r.coin();            // connector runs child -> parent: the far end is its source
         bool horiz = r.coin();
+        std::vector<std::pair<int, int> > pts;
         for (int s = 0; s < segs; ++s) {
             int d = STEP[r.next() % 8];
             if (r.coin(1, 12)) { x += d; y += STEP[r.next() % 8]; }        // oblique
             else if (horiz) x += d; else y += d;
             horiz = !horiz;
-            HyperedgeTreeNode *n = w.newNode(x, y);
+            pts.push_back(std::make_pair(x, y));
+        }
+        JunctionRef *childJ = isJ ? w.newJunction(x, y, r.coin(1, 6)) : nullptr;
+        // the connector really is attached: to the parent junction and to the child junction / a free point
+        ConnEnd parentEnd(par.node->junction);
+        ConnEnd childEnd = childJ ? ConnEnd(childJ) : ConnEnd(Point(x, y));
+        ConnRef *conn = towardsParent ? w.newConn(fixedConn, &childEnd, &parentEnd)
+                                      : w.newConn(fixedConn, &parentEnd, &childEnd);
+        HyperedgeTreeNode *prev = par.node;
+        for (size_t s = 0; s < pts.size(); ++s) {
+            HyperedgeTreeNode *n = w.newNode(pts[s].first, pts[s].second);
             w.newEdge(prev, n, conn);
             prev = n;
         }
-        if (isJ) prev->junction = w.newJunction(x, y, r.coin(1, 6));
+        if (isJ) prev->junction = childJ;
         else {
             prev->isConnectorSource = towardsParent;
             if (r.coin(1, 10)) prev->isPinDummyEndpoint = true;
@@ -344,12 +369,65 @@ inline void casePrimitives(vh::Rng &r, bool thorough) {
     freeAll(w);
 }
 
+// The conversion back: `root->writeEdgesToConns(nullptr, 0); root->writeEdgesToConns(nullptr, 1);` as at the end
+// of HyperedgeImprover::execute (without updateConnEnds: the destination ends the connectors really have are
+// printed, the model gets them as input).  Run in a child process: the library asserts
+// `conn->m_dst_connend` when a connector without destination ConnEnd reaches a branching node.
+//   hop <i> write <root node>;  hdst <i> <conn>:<junction|-> ..;  hroute <i> <conn> <x> <y> ..;  hwrite <i> ok|abort
+inline void writeBack(World &w, int i) {
+    JunctionSet &roots = w.imp.*get(TRoots());
+    if (roots.empty()) return;
+    JunctionHyperedgeTreeNodeMap &jm = w.imp.*get(TJunctions());
+    if (jm.find(*roots.begin()) == jm.end()) return;
+    HyperedgeTreeNode *root = jm[*roots.begin()];
+    rediscover(w, root);
+    printf("hop %d write %ld\n", i, w.idOf(root));
+    std::set<ConnRef *> conns;
+    for (HyperedgeTreeEdge *e : w.edges) if (e->conn) conns.insert(e->conn);
+    printf("hdst %d", i);
+    for (auto &p : w.cById) {
+        if (!conns.count(p.second)) continue;
+        ConnEnd d = p.second->endpointConnEnds().second;
+        if (d.type() == ConnEndJunction) printf(" %ld:%ld", p.first, w.idOf(d.junction()));
+        else if (d.type() == ConnEndShapePin) printf(" %ld:-", p.first);
+    }
+    printf("\n");
+    dump(w, i, "dfs", root);
+    fflush(stdout); fflush(stderr);
+    pid_t pid = fork();
+    if (pid == 0) {
+        FILE *devnull = fopen("/dev/null", "w");
+        if (devnull) dup2(fileno(devnull), 2);          // the expected assertion message is not an error
+        root->writeEdgesToConns(nullptr, 0);
+        root->writeEdgesToConns(nullptr, 1);
+        for (auto &p : w.cById) {
+            if (!conns.count(p.second)) continue;
+            printf("hroute %d %ld", i, p.first);
+            const PolyLine &pl = p.second->displayRoute();
+            for (size_t q = 0; q < pl.size(); ++q) printf(" %s %s", vh::hx(pl.ps[q].x).c_str(), vh::hx(pl.ps[q].y).c_str());
+            printf("\n");
+        }
+        printf("hwrite %d ok\n", i);
+        fflush(stdout);
+        _exit(0);
+    }
+    int status = 0;
+    waitpid(pid, &status, 0);
+    if (!(WIFEXITED(status) && WEXITSTATUS(status) == 0)) printf("hwrite %d abort\n", i);
+    fflush(stdout);
+}
+
 // removeZeroLengthEdges(root, nullptr) on improver-shaped trees, then the junction moves, then again
 inline void caseRewrites(vh::Rng &r, bool thorough, int flavour) {
     World w;
     bool major = (flavour % 2) == 1;
     HyperedgeTreeNode *root = genTree(w, r, (int) r.range(3, thorough ? 9 : 7), flavour >= 4 && r.coin(1, 3));
     w.router->processTransaction();          // the junctions become live obstacles of the router
+    // attach the connectors the way the improver itself does (ConnRef::updateEndPoint): never routed
+    for (PendingEnds &pe : w.pending) {
+        (pe.conn->*get(TUpd()))(VertID::src, pe.src);
+        (pe.conn->*get(TUpd()))(VertID::tar, pe.dst);
+    }
     registerImprover(w, root, major);
     HyperedgeTreeNode *anchor = root;
     rediscover(w, anchor);
@@ -419,6 +497,7 @@ inline void caseRewrites(vh::Rng &r, bool thorough, int flavour) {
             }
         }
     }
+    writeBack(w, ++i);
     freeAll(w);
 }
 
